@@ -82,7 +82,7 @@ fn check(e: &Expression, case: &str, rep: &mut Report, nontrivial_key: Option<St
     recs[1].relpath = "z".into();
     match validate(e, &crate::sut::opts_for(crate::rng::hash_str(case)), &mut |_| recs.clone()) {
         Tv::Skip(_) => rep.skipped_unspecified += 1,
-        Tv::Refused(m) => rep.violation("C10:refused", &format!("supported tree refused: {}", m), case, J::Null),
+        Tv::Refused(_) => rep.count("refused_by_compile"), // C12's subject
         Tv::Bad { kind, what, mut detail } => {
             detail.push("expression", J::s(render_default(e).unwrap_or_default()));
             let has_fid = av.iter().any(|a| matches!(a, Action::PrintFid));
@@ -210,8 +210,11 @@ pub fn run(ctx: &Ctx, rep: &mut Report) {
                 let (e2, recs2) = build(0o123, 'S');
                 let twin_ok = matches!(validate(&e2, &crate::sut::opts_for(i), &mut |_| recs2.clone()), Tv::Agree { .. });
                 if twin_ok {
+                    // the recorded finding is the undecodable stream; any other failure kind is a
+                    // different signature (and so not covered by the known-findings entry)
+                    let sig = if kind == "decode" { "C10:separator-in-payload".to_string() } else { format!("C10:separator-in-payload:{}", kind) };
                     rep.violation(
-                        "C10:separator-in-payload",
+                        &sig,
                         &format!("a record whose payload contains the frame separator 0x1e cannot be split back ({}): {}", kind, what.chars().take(300).collect::<String>()),
                         &case,
                         detail,
